@@ -200,6 +200,9 @@ func TrimPrefix(s, prefix string) string {
 		}
 		return s
 	}
+	if i < len(prefix) {
+		return s
+	}
 	return s[i:]
 
 hasUnicode:
